@@ -96,6 +96,8 @@ def run_gen(ctx, rep, rules, only_par=False, only_tags=None, floors=None):
                 # C03 speaks about programs that use lattice values monotonically: an index keyed by the lattice value is an equality
                 # test on it and outside that premise (C06 owns those: plan independence)
                 gen_rules.check_G3r(pg, rep, skip_lattice_value_keys=True)
+            elif r == 'G15':
+                gen_rules.check_G15(pg, rep)
             elif r == 'G14':
                 gen_rules.check_G14(pg, rep)
             elif r == 'G12':
